@@ -504,7 +504,15 @@ func eqMutants(root *Node, skipRoot bool) []eqMutant {
 		case "ptr":
 			if free {
 				emit("ptr-depth+", p, func(m *Node) bool { c := *m; *m = Node{T: "ptr", Ex: &c}; return true })
-				emit("ptr-depth-", p, func(m *Node) bool { *m = *m.Ex; return true })
+				emit("ptr-depth-", p, func(m *Node) bool {
+					if m.Ex.T == "str" && m.Ex.S == "" {
+						// a pointer to "" is a value; the bare "" is no expression for a
+						// Condition (SetExpression turns it down): not the same description
+						return false
+					}
+					*m = *m.Ex
+					return true
+				})
 			}
 			var et reflect.Type
 			if ctx != nil {
